@@ -180,6 +180,13 @@ def exhaustive(tier):
                 if route == "iadd-own-value" and kind not in ("list", "typed-list"):
                     continue
                 yield {"mode": "same-as-default", "kind": kind, "place": place, "route": route}
+    # a load that does not MENTION a nested sub-configuration leaves that sub-configuration
+    # as it was: values and user-defined marks, per format and load route
+    for fmt in ("json", "yaml", "xml", "bson", "pickle"):
+        for route in ("loads", "load-file", "load_tree"):
+            for mention in ("absent", "sibling-only"):  # (an explicit empty map IS a value loaded for the sub-configuration)
+                for kind in ("schema", "configtype"):
+                    yield {"mode": "unmentioned-sub", "fmt": fmt, "route": route, "mention": mention, "kind": kind}
     # a sub-configuration OBJECT (one that belongs to another configuration, or a free-standing one) assigned as a whole:
     # its leaves keep the status they had - no value was assigned or loaded for a leaf that was at its default
     for kind in ("schema", "configtype"):
@@ -246,6 +253,53 @@ def _same_as_default_case(case, R):
     R.check(cc.is_value_defined(owner, "f") is True, "defined-iff", "same-as-default:" + route,
             lambda: "%s given its own default value %r through %s: not reported user-defined" % (".".join(path), value, route))
     R.check(cc.is_value_defined(cfg, "other") is False, "defined-iff", "same-as-default:others", "another field became user-defined")
+
+
+def _unmentioned_sub_case(case, R):
+    cc = sandbox._state["cc"]
+    fmt, route, mention, kind = case["fmt"], case["route"], case["mention"], case["kind"]
+    sub = cc.Schema()
+    sub.host = cc.StringField(default="localhost")
+    sub.port = cc.IntField(default=80)
+    sub.deep.level = cc.IntField(default=1)
+    sub.deep.tags = cc.ListField(cc.StringField(), default=lambda: ["a"])
+    schema = cc.Schema()
+    schema.name = cc.StringField(default="n")
+    schema.other.flag = cc.BoolField(default=False)
+    schema.sub = sub if kind == "schema" else cc.make_type(sub, "UnmentionedT", module=__name__)
+    R.label("unmentioned-sub", "unmentioned-sub:" + mention)
+    R.nontrivial = True
+    with sandbox.CaseDir() as d:
+        cfg = schema(key_filename=os.path.join(d, "key"))
+        cfg.sub.port = 8080
+        cfg.sub.deep.level = 5
+        tree = {"name": "loaded"}
+        if mention == "sibling-only":
+            tree["other"] = {"flag": True}
+
+        def status():
+            return [(p, cfg[p], cc.is_value_defined(cfg, p)) for p in ("sub.host", "sub.port", "sub.deep.level")] + [("sub.deep.tags", list(cfg.sub.deep.tags), cc.is_value_defined(cfg, "sub.deep.tags"))]
+        before = status()
+        try:
+            if route == "load_tree":
+                cfg.load_tree(tree)
+            else:
+                doc = cc.ConfigFormat.get(fmt).dumps(cfg, tree)
+                if route == "loads":
+                    cfg.loads(doc, fmt)
+                else:
+                    target = os.path.join(d, "partial." + fmt)
+                    with open(target, "wb") as fp:
+                        fp.write(doc)
+                    cfg.load(target, fmt)
+        except Exception as exc:
+            R.fail("crash", "unmentioned-sub:" + route, "loading a partial document raised %r" % (exc,))
+            return
+        after = status()
+        R.check(cfg.name == "loaded" and cc.is_value_defined(cfg, "name"), "defined-iff", "unmentioned-sub:supplied", "the supplied field was not loaded")
+        R.check(before == after, "defined-iff", "unmentioned-sub:%s:%s" % (route, mention),
+                lambda: "%s (%s) of a document that %s the sub-configuration changed it: %r -> %r" % (
+                    route, fmt, "does not mention", before, after))
 
 
 def _adopted_subconfig_case(case, R):
@@ -478,6 +532,8 @@ def _varying_case(case, R):
 def run_case(case, R):
     if case.get("mode") == "varying-default":
         return _varying_case(case, R)
+    if case.get("mode") == "unmentioned-sub":
+        return _unmentioned_sub_case(case, R)
     if case.get("mode") == "adopted-subconfig":
         return _adopted_subconfig_case(case, R)
     if case.get("mode") == "edited-default":
